@@ -24,7 +24,8 @@ def model_checks(ctx):
     th = ctx.thorough
     runs = [("Balancer_mc.cfg", "safety: threshold/timer/error/close interleavings (BufLen=10, 20%)", 900),
             ("Balancer_mc_full.cfg", "safety: both buffers full, fail-over, drops (BufLen=1)", 900),
-            ("Balancer_live.cfg", "liveness: accepted => eventually written, drops => eventually reported", 900)]
+            ("Balancer_live.cfg", "liveness: accepted => eventually written, drops => eventually reported", 900),
+            ("Balancer_live_stall.cfg", "liveness with an upstream that stops reading: the write deadline frees the sender", 900)]
     if th:
         runs += [("Balancer_mc_big.cfg", "safety big (BufLen=10, 4 packets, 2 faults)", 5400),
                  ("Balancer_mc_full_big.cfg", "safety big: drops with a fault and reconnects (BufLen=1, 6 packets)", 5400),
@@ -41,7 +42,8 @@ def model_checks(ctx):
     neg = [("Balancer_live_nosignal.cfg", "property", "timer callback without signal: liveness cycle"),
            ("Balancer_nosignal_inv.cfg", "invariant:NoStuck", "timer callback without signal: sender sleeps past its deadline"),
            ("Balancer_skip.cfg", "invariant:InOrderNoLoss", "skip after a write error loses an accepted packet"),
-           ("Balancer_reportloss.cfg", "invariant:NoReportLost", "failed report write loses the amount")]
+           ("Balancer_reportloss.cfg", "invariant:NoReportLost", "failed report write loses the amount"),
+           ("Balancer_live_nodeadline.cfg", "property", "write deadline never armed: a stalled upstream blocks the sender for ever")]
     demo = {}
     for cfg, want, name in (neg if th else neg[:1] + neg[2:3]):
         res = ctx.tlc("BalancerMC", cfg, timeout=900, name="expected counterexample: " + name, expect_violation=True)
@@ -109,7 +111,7 @@ def run(ctx):
     # ---- I->S: the real egress
     nbeh = 60 if th else 10
     behs = behaviours(ctx, nbeh)
-    env = {"VERIF_NSCN": 130 if th else 20, "VERIF_NLSTALL": 3 if th else 1, "VERIF_NNEWEGRESS": 2 if th else 1,
+    env = {"VERIF_NSCN": 130 if th else 20, "VERIF_NLSTALL": 4 if th else 2, "VERIF_NNEWEGRESS": 2 if th else 1,
            "VERIF_PAR": 8 if th else 6, "VERIF_NFILES": 8 if th else 3}
     res, out, rc = ctx.go_test("internal/balancer", "TestVerifC31", inp=behs, env=env, timeout=1500 if th else 600)
     res = ctx.need_result(res, out, rc, "TestVerifC31")
@@ -168,7 +170,8 @@ def run(ctx):
         ctx.ev.sample(s)
     ctx.ev.sample({"late_quiesces": res.get("counters", {}).get("quiesce_late", 0), "notes": (res.get("notes") or [])[:4]})
     ctx.ev.assume("'healthy upstream' = the listener reads and the driver's gate before the write is open; the delay ceiling "
-                  "is 5 s of responsive time (a poll step delayed by machine load counts 20 ms at most), against swapWaitMax = 1 s")
+                  "is 5 s of responsive time (a poll step delayed by machine load counts 20 ms at most) without any data progress "
+                  "(batch handed to/finished by a writer, connection, report, frame received), against swapWaitMax = 1 s")
     ctx.ev.assume("'written upstream' = accepted by the kernel for that connection: for a connection the listener reset, the "
                   "received frames must be a prefix of the written ones; for all others they must be equal")
     ctx.ev.assume("Egress.Close ends the obligations: packets still buffered at Close are not required to be written; calls "
